@@ -43,6 +43,19 @@ def all_props():
 def do_mutant(m, slot):
     base = os.path.join(tempfile.gettempdir(), "splint_mut")
     d = os.path.join(base, "m%d" % slot)
+    # a slot (scratch copy + its cargo target dir) is used by one mutants.py process at a time
+    import fcntl
+    os.makedirs(os.path.join(VERIF, ".work"), exist_ok=True)
+    lock_fh = open(os.path.join(VERIF, ".work", "mut%d.lock" % slot), "w")
+    fcntl.flock(lock_fh, fcntl.LOCK_EX)
+    try:
+        return _do_mutant_locked(m, slot, d)
+    finally:
+        fcntl.flock(lock_fh, fcntl.LOCK_UN)
+        lock_fh.close()
+
+
+def _do_mutant_locked(m, slot, d):
     shutil.rmtree(d, ignore_errors=True)
     os.makedirs(d)
     copy_repo(d)
@@ -112,9 +125,13 @@ def main():
             if not os.path.exists(pf):
                 continue
             exp = []
+            silent = False
             if os.path.exists(meta):
-                exp = [json.load(open(meta)).get("property")]
-            ms.append({"name": "seed:" + n, "patch": pf, "expect": [e for e in exp if e]})
+                md = json.load(open(meta))
+                exp = [md.get("property")]
+                # a seeded change that a later fix: commit made harmless must now be *silent*
+                silent = bool(md.get("expect_silent_on_current_tree"))
+            ms.append({"name": "seed:" + n, "patch": pf, "expect": [] if silent else [e for e in exp if e], "harmless": silent})
     else:
         ms = json.load(open(a.file or os.path.join(VERIF, "mutants", "mutants.json")))
     if a.only:
